@@ -2,6 +2,7 @@ import RactorModel.Lemmas.FactoryFate
 import RactorModel.Lemmas.FactoryCountW
 import RactorModel.Lemmas.FactorySlotInst
 import RactorModel.Lemmas.FactoryHandler
+import RactorModel.Lemmas.FactoryStop
 
 /-!
 # C13 — Factory: every job meets exactly one fate, never runs twice
@@ -239,6 +240,59 @@ def discardsOf (w : W) : List (Reason × Nat × Option Nat) :=
   w.env.log.filterMap fun | .discard r id h => some (r, id, h) | _ => none
 example : discardsOf ((init stickyCase).runSteps stickySteps) = [(.ttlExpired, 3, some 1)] := by decide +kernel
 
+/-! ## A draining factory stops only when nobody holds a job
+
+`post_stop` drops the pool: whatever still waits in a worker's queue at that moment vanishes without
+a report (ghost event `abandoned`). So the factory may raise its stop signal only when EVERY slot
+is free — also a slot that a pool shrink has flagged draining and that is still working off its
+backlog. -/
+
+/-- (`is_drained`) a draining factory counts as drained only when every slot of the pool —
+flagged draining by a shrink or not — is free and the factory queue is empty. -/
+theorem drained_means_every_worker_free (w : W) (hd : w.drain = .draining) (h : w.isDrained.1 = true) :
+    (∀ p ∈ w.pool, p.isAvailable = true) ∧ w.queue = [] :=
+  isDrained_true w hd h
+
+/-- For every case configuration and EVERY sequence of harness steps (shrinks that leave busy
+workers flagged draining, DrainRequests at any point, deaths, a factory held busy, …): whenever the
+stop signal is up and `post_stop` has not run yet, no slot holds or queues a job, the factory queue
+is empty and the factory is not suspended inside a handler. -/
+theorem stop_signal_only_over_idle_pool (c : CaseCfg) (steps : List Step) :
+    ((init c).runSteps steps).stopSignal = true → ((init c).runSteps steps).stopped = false →
+    ((init c).runSteps steps).blocked = false ∧
+    (∀ p ∈ ((init c).runSteps steps).pool, p.isAvailable = true) ∧ ((init c).runSteps steps).queue = [] :=
+  (stopInv_always c steps).idle
+
+/-- (drained exit) For every case configuration and EVERY sequence of harness steps: no job is
+ever abandoned by `post_stop` — neither from a worker's queue nor from the factory queue. With
+`conservation` (the terminal fates are handled / discarded / lost with a dying worker / dropped
+with the factory's mailbox / abandoned): every job the factory took in before it stopped has met
+one of the reported fates. -/
+theorem post_stop_abandons_nothing (c : CaseCfg) (steps : List Step) (id : Nat) :
+    Ev.abandoned id ∉ ((init c).runSteps steps).env.log :=
+  (hinv_always c steps).clean id
+
+/-- witness (the history that exposes an `is_drained` that skips slots flagged draining): custom
+routing, 2 workers, worker 1 runs job 5 with job 7 queued, the pool shrinks to 1 (worker 1 flagged
+draining), DrainRequests; the factory keeps running until worker 1 has worked off job 7. -/
+def shrinkDrainCase : CaseCfg :=
+  { cfg := { router := .cu, prioQueue := false, hasHandler := true, table := [], hasCC := false }, n := 2, disc := none, rl := none }
+def shrinkDrainSteps : List Step :=
+  [⟨.nop, 0, 2000000, 3000000⟩,
+   ⟨.dispatch 5 1 2206609067086327257 none false, 3000000, 4000000, 5000000⟩,
+   ⟨.dispatch 7 1 2206609067086327257 none false, 5000000, 6000000, 7000000⟩,
+   ⟨.resize 1, 7000000, 8000000, 9000000⟩,
+   ⟨.drain, 9000000, 10000000, 11000000⟩,
+   ⟨.finish 1 true, 11000000, 12000000, 13000000⟩,
+   ⟨.finish 1 true, 13000000, 14000000, 15000000⟩]
+/-- jobs handled so far -/
+def handledOf (w : W) : List Nat := w.env.log.filterMap fun | .handled _ id => some id | _ => none
+example : ((init shrinkDrainCase).runSteps (shrinkDrainSteps.take 5)).stopped = false := by decide +kernel
+example : handledOf ((init shrinkDrainCase).runSteps (shrinkDrainSteps.take 6)) = [5] ∧
+    ((init shrinkDrainCase).runSteps (shrinkDrainSteps.take 6)).stopped = false := by decide +kernel
+example : handledOf ((init shrinkDrainCase).runSteps shrinkDrainSteps) = [5, 7] ∧
+    ((init shrinkDrainCase).runSteps shrinkDrainSteps).exited = true := by decide +kernel
+
 end C13
 
 #print axioms C13.reject_log
@@ -257,3 +311,6 @@ end C13
 #print axioms C13.discards_reach_current_handler
 #print axioms C13.update_installs_everywhere
 #print axioms C13.other_messages_keep_handler
+#print axioms C13.drained_means_every_worker_free
+#print axioms C13.stop_signal_only_over_idle_pool
+#print axioms C13.post_stop_abandons_nothing
